@@ -357,6 +357,9 @@ def _count_cases(tier, rng):
         items = {k: [f"{k}0", f"{k}1"] for k in order}
         yield {"sweep": {"items": items, "dims": None}, "use_pandas": False}
         yield {"sweep": {"items": items, "dims": [(order[0], order[2]), order[1]]}, "use_pandas": False}
+        # history: the pipeline was already asked (counted) once, then a root argument of one of its functions is bound:
+        # that argument no longer distinguishes calls
+        yield {"sweep": {"items": items, "dims": None}, "use_pandas": False, "bind_after_first_count": "b"}
 
 
 def _check_count(case):
@@ -385,6 +388,11 @@ def _check_count(case):
         return []
     got = count_sweep("z", mk(sw), p, use_pandas=case["use_pandas"])
     root = {"u": ("a", "b"), "w": ("a", "b", "c")}
+    if case.get("bind_after_first_count"):
+        bound = case["bind_after_first_count"]
+        p["u"].update_bound({bound: "BOUND"})
+        got = count_sweep("z", mk(sw), p, use_pandas=case["use_pandas"])
+        root = {k: tuple(a for a in v if a != bound) for k, v in root.items()}
     bad = []
     for dep, args in root.items():
         want: dict = {}
